@@ -159,8 +159,9 @@ def perm_cases(files, count, seed):
             else:
                 merged.append(pure[j]); j += 1
         # a second load in the middle must not disturb anything either (iterators created before stay valid)
+        # the base case's descriptor is kept (a known finding is identified by it), only the area changes
         out.append(dict(c, calls=[first] + merged, id="perm-%d-%d" % (seed, len(out)),
-                        desc=dict(area="perm", base=c["id"], seed=seed)))
+                        desc=dict(c.get("desc", {}), area="perm", base=c["id"], base_area=c.get("desc", {}).get("area"), seed=seed)))
     return out
 
 
